@@ -57,6 +57,23 @@ def scale_traces():
     return out
 
 
+def failed_send_traces():
+    """one transmission fails (the transport raises after the datagram was handed over): the following offers and the StopOffer go out"""
+    out = []
+    for v in ("B", "F"):
+        tc = anngen.TIMINGS[v]
+        for k in (0, 1, 2, 3):
+            insts = ["I1", "I2"]
+            sched = [{"t": 0, "j": 0, "op": "ann_start"}, {"t": 14, "j": 0, "op": "ann_stop"}]
+            rand = [0] * 8
+            ev, _ = annenv.run_schedule(sched, tc, insts, ann0=insts, rand=list(rand), send_failures=[k])
+            cfg = annenv.mon_cfg(tc, insts, insts)
+            cfg["dsts"] = ["mc", "a1", "a2", "a3", "a4", "a5"]
+            out.append({"cfg": cfg, "ev": monpass.add_adv(ev), "sched": sched, "variant": v, "ann0": insts, "rand": rand, "insts": insts,
+                        "fails": [k], "diag": {"variant": v, "family": "transmission %d fails" % k}})
+    return out
+
+
 def check(ctx):
     m1 = Mode1(ctx, "MC_Ann")
     for v in (["C10_A", "C10_B"] if ctx.quick else ["C10_A", "C10_B", "C10_C", "C10_D"]):
@@ -67,7 +84,7 @@ def check(ctx):
     for sw in ["SwD4", "SwD5", "SwD6"]:
         m1.caught(sw, "C10_quick.cfg")
     traces = anngen.run(ctx.seed, ctx.pick(360, 6000), ctx.pick(7, 10), INSTS, list("ABCDEF"), tag="c10")
-    bad, ms = judge(ctx, "Mon_C10", traces + scale_traces(), "announcer histories", anngen.payload)
+    bad, ms = judge(ctx, "Mon_C10", traces + scale_traces() + failed_send_traces(), "announcer histories", anngen.payload)
     sim = anngen.spec_to_code_ann(ctx, "Mon_C10", "[C10_A EXCEPT !.randVals = {0}]", "C10_Inputs", "A", ["I1"], ["I1"], ctx.pick(25, 400))
     probes = simple_service_probe(ctx)
     acc, total = anngen.conform_by_variant(ctx, traces, ctx.pick(120, 1200))
